@@ -324,7 +324,15 @@ fn eqprim_event(rng: &mut Rng) -> Option<J> {
     let v1 = tv(&p)?;
     let v2: sonic_rs::Value = sonic_rs::from_str(&pt).ok()?;
     let v3: sonic_rs::Value = sonic_rs::from_str(&rt).ok()?;
-    let res = catch(|| { let (a1, a2) = cmp(&v1, &p); let (b1, b2) = cmp(&v2, &p); let (c, _) = cmp(&v1, &q); let (d1, d2) = cmp(&v3, &p); json!({"a1":a1,"a2":a2,"b1":b1,"b2":b2,"c":c,"pq":peq(&p, &q),"d1":d1,"d2":d2}) });
+    // the same primitive turned into a DOM value by From / json! instead of to_value
+    fn built(p: &P) -> (sonic_rs::Value, sonic_rs::Value) { match p {
+        P::I(x) => (sonic_rs::Value::from(*x), sonic_rs::json!(*x)), P::U(x) => (sonic_rs::Value::from(*x), sonic_rs::json!(*x)),
+        P::F(x) => (sonic_rs::Value::try_from(*x).unwrap_or_default(), sonic_rs::json!(*x)), P::B(x) => (sonic_rs::Value::from(*x), sonic_rs::json!(*x)),
+        P::S(x) => (sonic_rs::Value::from(x.as_str()), sonic_rs::json!(x.clone())), P::V(x) => (sonic_rs::Value::from(x.clone()), sonic_rs::json!(x.clone())) } }
+    let res = catch(|| { let (a1, a2) = cmp(&v1, &p); let (b1, b2) = cmp(&v2, &p); let (c, _) = cmp(&v1, &q); let (d1, d2) = cmp(&v3, &p);
+        let (vf, vj) = built(&p);
+        json!({"a1":a1,"a2":a2,"b1":b1,"b2":b2,"c":c,"pq":peq(&p, &q),"d1":d1,"d2":d2,
+               "f1": vf == v1 && v1 == vf && sonic_rs::to_string(&vf).ok() == Some(pt.clone()), "j1": vj == v1 && v1 == vj && sonic_rs::to_string(&vj).ok() == Some(pt.clone())}) });
     Some(match res { Ok(r) => json!({"ev":"eqprim","kind":kinds[k],"rkind":kinds[rk],"ptext":bytes_j(pt.as_bytes()),"rtext":bytes_j(rt.as_bytes()),"r":r,"panic":false}),
                      Err(m) => json!({"ev":"eqprim","kind":kinds[k],"rkind":kinds[rk],"ptext":bytes_j(pt.as_bytes()),"rtext":bytes_j(rt.as_bytes()),"panic":true,"msg":m}) })
 }
